@@ -145,6 +145,10 @@ func Eval(w *wm.World, x *fw.Rec) {
 		x.Fail("unexpected error: "+tr.Err.Error(), "", "list failed on a world the reference model can analyse: "+tr.Err.Error())
 		return
 	}
+	for _, b := range tr.WF {
+		// C05's invariant is a precondition of the exact cell argument
+		x.Fail("result not well-formed (C05 invariant): "+wfClass(b), "", strings.Join(tr.WF, "\n"))
+	}
 	bad := ref.Compare(tr)
 	if len(bad) > 0 {
 		x.Fail(classOf(bad[0]), "", strings.Join(firstK(bad, 8), "\n"))
@@ -153,6 +157,13 @@ func Eval(w *wm.World, x *fw.Rec) {
 		x.Nontrivial(tr.OutcomeKey())
 		x.Sample(map[string]any{"world": w.Brief(), "report": firstK(sortedConns(tr), 6)})
 	}
+}
+
+func wfClass(b string) string {
+	if i := strings.Index(b, ": "); i >= 0 {
+		return b[:i]
+	}
+	return b
 }
 
 func sortedConns(tr wm.ToolResult) []string {
@@ -178,7 +189,7 @@ func classOf(s string) string {
 
 // nontrivial: some policy governs some workload and the relation is neither empty nor all-"All".
 func nontrivial(w *wm.World, tr wm.ToolResult) bool {
-	gov := false
+	gov := len(w.ANPs) > 0 || w.BANP != nil
 	for i := range w.NPs {
 		for _, wl := range w.WLs {
 			if wl.NS == w.NPs[i].NS && w.NPs[i].PodSel.Matches(wl.Labels) {
@@ -199,6 +210,13 @@ func nontrivial(w *wm.World, tr wm.ToolResult) bool {
 	return len(tr.Conns) < np*(np-1)+2*np*len(tr.IPs)
 }
 
+// Scope is a named choice tree of worlds.
+type Scope struct {
+	Name string
+	Mode fw.Mode
+	Gen  func(c *fw.Ctx) *wm.World
+}
+
 func Run(r *fw.Run) {
 	r.Rule = "worlds are enumerated from the choice tree of each scope (all leaves); a case is non-trivial when some NetworkPolicy selects some workload and the reported relation is neither empty nor complete; distinct = distinct reported relations per scope"
 	r.Assume = []string{
@@ -211,12 +229,27 @@ func Run(r *fw.Run) {
 	} else {
 		r.SetBudget(25 * time.Minute)
 	}
-	portSets := PortSets(PortAlpha)
 	r.Bounds["port_alphabet"] = len(PortAlpha)
-	r.Bounds["port_sets"] = len(portSets)
+	r.Bounds["port_sets"] = len(PortSets(PortAlpha))
+	r.Bounds["peer_sets"] = len(PeerSets())
+	r.Bounds["multi_policy_alphabet"] = len(multiPolicyAlphabet())
+	r.Bounds["rule_alphabet"] = len(ruleAlphabet())
+	for _, sc := range Scopes(r.Quick()) {
+		fw.Explore(r, sc.Name, sc.Mode, sc.Gen, Eval)
+	}
+}
+
+// Scopes returns the world scopes of C01 (quick: the four full products; thorough: + interaction
+// scope and deviation-bounded seeds). Other checks reuse them with their own oracles.
+func Scopes(quick bool) []Scope {
+	var scopes []Scope
+	add := func(name string, mode fw.Mode, gen func(c *fw.Ctx) *wm.World) {
+		scopes = append(scopes, Scope{name, mode, gen})
+	}
+	portSets := PortSets(PortAlpha)
 
 	// S-ports
-	fw.Explore(r, "S-ports", fw.Full, func(c *fw.Ctx) *wm.World {
+	add("S-ports", fw.Full, func(c *fw.Ctx) *wm.World {
 		dir := fw.Pick(c, []string{"Ingress", "Egress"}, "direction")
 		types := fw.Pick(c, TypesAlpha, "policyTypes")
 		cports := fw.Pick(c, CPortAlpha, "containerPorts(dst)")
@@ -243,18 +276,17 @@ func Run(r *fw.Run) {
 		}
 		w.NPs = []wm.NP{np}
 		return w
-	}, Eval)
+	})
 
 	// S-sel + S-ip: one policy, one rule, selector / ipBlock peers
 	peerSets := PeerSets()
 	polSels := []*wm.Sel{{}, ml("app", "a"), me("app", "NotIn", "a"), me("tier", "DoesNotExist"), me("zzz", "NotIn", "q"), me("app", "In", "a", "b"), me("tier", "Exists")}
 	selPorts := [][]wm.NPPort{nil, {{HasPort: true, Num: 80}}}
-	r.Bounds["peer_sets"] = len(peerSets)
-	fw.Explore(r, "S-sel-ip", fw.Full, func(c *fw.Ctx) *wm.World {
+	add("S-sel-ip", fw.Full, func(c *fw.Ctx) *wm.World {
 		dir := fw.Pick(c, []string{"Ingress", "Egress"}, "direction")
 		nsc := fw.Pick(c, NsConfigs, "namespace objects")
 		nps := len(polSels)
-		if r.Quick() {
+		if quick {
 			nps = 5
 		}
 		ps := polSels[c.Choose(nps, "policy podSelector")]
@@ -271,16 +303,15 @@ func Run(r *fw.Run) {
 		}
 		w.NPs = []wm.NP{np}
 		return w
-	}, Eval)
+	})
 
 	// S-multi: two policies from a reduced policy alphabet (union semantics, namespace by omission)
 	pols := multiPolicyAlphabet()
-	r.Bounds["multi_policy_alphabet"] = len(pols)
 	stride := 1
-	if r.Quick() {
+	if quick {
 		stride = 4
 	}
-	fw.Explore(r, "S-multi", fw.Full, func(c *fw.Ctx) *wm.World {
+	add("S-multi", fw.Full, func(c *fw.Ctx) *wm.World {
 		i := c.Choose(len(pols), "policy A")
 		j := i + c.Choose(len(pols)-i, "policy B (>=A)")
 		if stride > 1 && i != j && (i*31+j)%stride != 0 {
@@ -297,12 +328,11 @@ func Run(r *fw.Run) {
 		a.Name, b.Name = "pa", "pb"
 		w.NPs = []wm.NP{a, b}
 		return w
-	}, Eval)
+	})
 
 	// S-rules: one policy with two rules per direction (rule union, per-rule ports x peers pairing)
 	rl := ruleAlphabet()
-	r.Bounds["rule_alphabet"] = len(rl)
-	fw.Explore(r, "S-rules", fw.Full, func(c *fw.Ctx) *wm.World {
+	add("S-rules", fw.Full, func(c *fw.Ctx) *wm.World {
 		dir := fw.Pick(c, []string{"Ingress", "Egress"}, "direction")
 		types := fw.Pick(c, TypesAlpha, "policyTypes")
 		n1 := c.Choose(len(rl)+1, "rule 1 (0 = none)")
@@ -311,7 +341,7 @@ func Run(r *fw.Run) {
 			n2 = c.Choose(len(rl)+1, "rule 2 (0 = none)")
 		}
 		o1 := c.Choose(len(rl)+1, "other-direction rule (0 = none)")
-		if r.Quick() && o1 > 2 {
+		if quick && o1 > 2 {
 			c.Skip()
 		}
 		w := &wm.World{NSs: NsConfigs[0], WLs: ThreeWL(CPortAlpha[1], CPortAlpha[2], CPortAlpha[3])}
@@ -333,11 +363,12 @@ func Run(r *fw.Run) {
 		}
 		w.NPs = []wm.NP{np}
 		return w
-	}, Eval)
+	})
 
-	if !r.Quick() {
-		thorough(r)
+	if !quick {
+		scopes = append(scopes, thorough()...)
 	}
+	return scopes
 }
 
 func ruleAlphabet() []wm.NPRule {
@@ -386,14 +417,18 @@ func multiPolicyAlphabet() []wm.NP {
 
 // thorough adds: the interaction scope (reduced alphabets of all dimensions at once) and
 // deviation-bounded variation of rich seed worlds over the large alphabets.
-func thorough(r *fw.Run) {
+func thorough() []Scope {
+	var scopes []Scope
+	add := func(name string, mode fw.Mode, gen func(c *fw.Ctx) *wm.World) {
+		scopes = append(scopes, Scope{name, mode, gen})
+	}
 	selPeers := SelPeers()
 	portSets := PortSets(PortAlpha)
 	rp := []wm.NPPort{{HasPort: true, Num: 80}, {HasPort: true, Num: 80, End: 81}, {Proto: "UDP"}, {HasPort: true, Name: "http"}, {HasPort: true, Name: "dns", Proto: "UDP"}}
 	rps := [][]wm.NPPort{nil, {rp[0]}, {rp[1]}, {rp[2]}, {rp[3]}, {rp[0], rp[2]}, {rp[3], rp[4]}}
 	ripb := []wm.NPPeer{Cidrs[0], Cidrs[1], Cidrs[7], Cidrs[9], Cidrs[10], Cidrs[5]}
 	rsel := []wm.NPPeer{{Pod: &wm.Sel{}}, {Pod: ml("app", "a")}, {NSSel: &wm.Sel{}}, {NSSel: ml("team", "b")}, {NSSel: ml(wm.NSNameKey, "ns2"), Pod: ml("app", "a")}, {Pod: me("app", "NotIn", "a")}, {NSSel: me("team", "Exists"), Pod: me("tier", "DoesNotExist")}, {NSSel: ml("team", "a"), Pod: &wm.Sel{}}}
-	fw.Explore(r, "S-inter", fw.Full, func(c *fw.Ctx) *wm.World {
+	add("S-inter", fw.Full, func(c *fw.Ctx) *wm.World {
 		dir := fw.Pick(c, []string{"Ingress", "Egress"}, "direction")
 		types := fw.Pick(c, TypesAlpha, "policyTypes")
 		nsc := fw.Pick(c, NsConfigs, "namespace objects")
@@ -418,7 +453,7 @@ func thorough(r *fw.Run) {
 		}
 		w.NPs = []wm.NP{np}
 		return w
-	}, Eval)
+	})
 
 	// seeds: two policies x two rules each; every position can deviate to any element of the large alphabets
 	allPeers := append(append([]wm.NPPeer{}, selPeers...), Cidrs...)
@@ -454,6 +489,7 @@ func thorough(r *fw.Run) {
 		}
 	}
 	for s := 0; s < 2; s++ {
-		fw.Explore(r, fmt.Sprintf("S-seed%d-dev2", s), fw.Deviations(2), seedGen(s), Eval)
+		add(fmt.Sprintf("S-seed%d-dev2", s), fw.Deviations(2), seedGen(s))
 	}
+	return scopes
 }
